@@ -27,7 +27,8 @@ RULE = ("(ii) complete product probe (9) x container chain of depth 1-3 over 8 n
         "every kind; (iv) convention-sensitive leaves (interval, boolean, array, JSON, backslash string, number, field, table, subquery, custom "
         "function) in every operand slot of every term class of the zoo: context invariant plus 'written as when rendered alone'; "
         "(iii) seeded random dialect-neutral programs rendered under all six classes (15 pairs each). non-trivial = "
-        "depth >= 1; distinct = (probe, chain, class, dialect, mode) / program hash")
+        "depth >= 1; distinct = (probe, chain, class, dialect, mode) / program hash"
+        " also: entry paths (str / repr / get_sql() / get_sql(None) / get_parameterized_sql()) of eleven statement kinds, all three table shortcuts, one value at several positions, absolute operand wrapping for ten operand shapes, absolute array / JSON literal forms at depth 0-2. (DESIGN.md 6a)")
 ASSUMPTIONS = ["the convention of a dialect is what its own class renders for the probe at depth 0 (placeholders compared by kind and numbering offset)",
                "neutral subset: select/from/join/where/group by expression/having/order by, functions, CASE, arithmetic, IN, BETWEEN, subqueries; "
                "no limit/offset, set operations, booleans, arrays, intervals, JSON"]
